@@ -54,41 +54,5 @@ pub fn run_each_obs(msgs: &[&[u8]], cap: usize) -> (bool, Obs) {
 /// and definite-length blocks (text-level, for expectations about `process`).
 /// Returns the complete messages and the unterminated tail.
 pub fn split_messages(s: &[u8]) -> (Vec<&[u8]>, &[u8]) {
-    let mut msgs = vec![];
-    let mut start = 0;
-    let mut i = 0;
-    let mut quote: Option<u8> = None;
-    while i < s.len() {
-        let b = s[i];
-        match quote {
-            Some(q) => {
-                if b == q {
-                    quote = None;
-                }
-                i += 1;
-            }
-            None => {
-                if b == b'\'' || b == b'"' {
-                    quote = Some(b);
-                    i += 1;
-                } else if b == b'#' && i + 1 < s.len() && (b'1'..=b'9').contains(&s[i + 1]) {
-                    let nd = (s[i + 1] - b'0') as usize;
-                    if i + 2 + nd <= s.len() {
-                        if let Ok(len) = std::str::from_utf8(&s[i + 2..i + 2 + nd]).unwrap_or("x").parse::<usize>() {
-                            i = (i + 2 + nd + len).min(s.len());
-                            continue;
-                        }
-                    }
-                    i += 1;
-                } else if b == b'\n' {
-                    msgs.push(&s[start..=i]);
-                    start = i + 1;
-                    i += 1;
-                } else {
-                    i += 1;
-                }
-            }
-        }
-    }
-    (msgs, &s[start..])
+    crate::spec::lexscan::split(s)
 }
